@@ -197,7 +197,8 @@ def gen_serve_bounds(rng, blocksizes):
                 # read requests around the transmit limit
                 if room >= hl:
                     lim = (room - hl) // unit
-                    for n in sorted(set([0, 1, max(0, lim - 1), lim, lim + 1, lim + 2, room // unit, room // unit + 1, (bs - 64) // unit, 2**32 - 1])):
+                    wraps = [b + d for b in (2**31, 2**30, 2**16, 2**24) for d in (0, 1, max(0, lim - 1), lim, lim + 1)] + [2**31 - 1, 2**32 - 2, 2**32 - 1 - lim]
+                    for n in sorted(set([0, 1, max(0, lim - 1), lim, lim + 1, lim + 2, room // unit, room // unit + 1, (bs - 64) // unit, 2**32 - 1] + wraps)):
                         raw = raw_frame(0, (1 if mem16 else 0) | (2 if serial else 0), 0, rng.randrange(65536), rng.randrange(2**32), n, [])
                         yield serve_line(serial, mem16, rng.randrange(2), bs, [], wire(serial, raw), verdicts(rng, 1))
                 # write requests whose frame length is around the receive limit
